@@ -128,6 +128,9 @@ Proof.
   - P_mat.munf. repeat split; reflexivity.
 Qed.
 
+Example C03_accepts_inhabited : accepts (OTranslate (V3 1 2 3)) = true /\ accepts (OFlip 7) = false.
+Proof. split; reflexivity. Qed.
+
 Definition C03_all := (C03_compose_is_left_to_right, C03_append_returns_index, C03_error_leaves_state,
   C03_step_inverse_both_orders, C03_step_acts_as_documented, C03_zero_scale_rejected,
   C03_negative_scale_rejected_unless_flip, C03_flip_dim_range, C03_Inv_reachable, C03_range_selects,
